@@ -50,6 +50,11 @@ class LerpSummary:
         return z3.Or(av == 0, z3.ULT(z3.LShR(av, 24), low))
 
 
+def okey(bv):
+    """order-preserving map of f32 bit patterns to unsigned integers (for 'within one ulp' claims)"""
+    return z3.If(z3.Extract(31, 31, bv) == 1, ~bv, bv | z3.BitVecVal(0x80000000, 32))
+
+
 def bits_of(x, name):
     b = z3.BitVec(name, 32)
     return b, [z3.fpBVToFP(b, F32) == x]
@@ -99,7 +104,32 @@ def main(tier):
             else:
                 ob('identity-1ulp', xin + [b == a] + c1 + c2, z3.Not(near), 'lerp(a,a,x) is a or one of its two f32 neighbours for all x in [0,1], all finite a')
                 ob('finite', xin + [z3.fpLEQ(z3.fpAbs(a), fpv32(2.0 ** 120)), z3.fpLEQ(z3.fpAbs(b), fpv32(2.0 ** 120))], z3.Not(fin(r)), 'x in [0,1], |a|,|b| <= 2^120: result finite')
+            # between a and b up to one ulp, and monotone in x up to one ulp, on a grid of x (a constant x keeps the multiplier cheap)
+            big = fpv32(2.0 ** 100)
+            mag = [z3.fpLEQ(z3.fpAbs(a), big), z3.fpLEQ(z3.fpAbs(b), big), z3.fpLEQ(a, b)]
+            ab_, c2b = bits_of(a, 'abits2'); bb_, c3b = bits_of(b, 'bbits2'); rb2, c1b = bits_of(r, 'rbits2')
+            grid = [0.25, 0.5, 0.75] if quick else [0.25, 0.5, 0.75, 1 / 3, 0.1, 0.9]
+            for xc in grid:
+                ob(f'between-1ulp[x={xc:.4g}]', [x == fpv32(xc)] + mag + c1b + c2b + c3b, z3.Not(z3.And(z3.UGE(okey(rb2) + 1, okey(ab_)), z3.ULE(okey(rb2), okey(bb_) + 1))),
+                   f'a <= b, |a|,|b| <= 2^100, x = {xc:.4g}: lerp(a,b,x) lies in [a,b] up to one ulp')
+            pts = [0.0] + sorted(grid) + [1.0]
+            for xa, xb in zip(pts, pts[1:]):
+                r1 = z3.substitute(r, (x, fpv32(xa))); r2 = z3.substitute(r, (x, fpv32(xb)))
+                r1b, c5b = bits_of(r1, f'r1bits_{xa:.4g}'); r2b, c4b = bits_of(r2, f'r2bits_{xb:.4g}')
+                o = check.add(Obligation(f'C14.f32.monotone-1ulp[x={xa:.4g},{xb:.4g}]', pre + mag + c5b + c4b + [z3.Not(z3.ULE(okey(r1b), okey(r2b) + 1))], [a, b], timeout=to,
+                                         words=f'a <= b, |a|,|b| <= 2^100: lerp(a,b,{xa:.4g}) <= lerp(a,b,{xb:.4g}) up to one ulp'))
+                o.S = S; o.xpair = (xa, xb)
         elif ty == 'f64':
+            # agreement with the real interpolation to f32 precision: reference evaluated in f64 (exact products for f32-representable a, b and
+            # the grid x; one f64 rounding in the sum)
+            big64 = z3.FPVal(2.0 ** 100, F64)
+            x64 = z3.fpFPToFP(RNE, x, F64)
+            exact = z3.fpAdd(RNE, z3.fpMul(RNE, a, z3.fpSub(RNE, z3.FPVal(1.0, F64), x64)), z3.fpMul(RNE, b, x64))
+            mx = z3.If(z3.fpGEQ(z3.fpAbs(a), z3.fpAbs(b)), z3.fpAbs(a), z3.fpAbs(b))
+            tol = z3.fpMul(RNE, mx, z3.FPVal(2.0 ** -22, F64))
+            small64 = z3.FPVal(2.0 ** -100, F64)
+            ob('f32-precision-on-grid', xset + [z3.fpLEQ(z3.fpAbs(a), big64), z3.fpLEQ(z3.fpAbs(b), big64), z3.Or(z3.fpIsZero(a), z3.fpGEQ(z3.fpAbs(a), small64)), z3.Or(z3.fpIsZero(b), z3.fpGEQ(z3.fpAbs(b), small64))], z3.Or(S.panic, z3.Not(z3.fpLEQ(z3.fpAbs(z3.fpSub(RNE, r, exact)), tol))),
+               f'f64, a, b zero or 2^-100 <= |.| <= 2^100 (f32-representable; no f32 underflow), {XSET}: |lerp - (a(1-x)+bx)| <= 2^-22 max(|a|,|b|)')
             if not quick:
                 ob('finite', xin, z3.Not(fin(r)), 'f64 (f32-representable a,b), x in [0,1]: result finite')
         else:
@@ -107,6 +137,28 @@ def main(tier):
             le = (lambda u, v: u <= v) if sg else (lambda u, v: z3.ULE(u, v))
             lo = z3.If(le(a, b), a, b); hi = z3.If(le(a, b), b, a)
             inrange = z3.And(le(lo, r), le(r, hi))
+            if bits == 8 or (bits == 16 and not quick):
+                # "the real interpolation rounded to nearest": for x = k/16 the real value is N/16 with the INTEGER N = a (16 - k) + b k;
+                # claim |16 r - N| <= 8 + 1 (ties either way; the +1 absorbs the f32 error of a(1-x)+bx, far below 1/16).  One query per
+                # grid point (a constant x keeps the multiplier cheap), all a, b of the type in each.  Monotone in x: consecutive grid
+                # points (transitivity gives every pair).
+                W = 32
+                ext = (lambda v: z3.SignExt(W - bits, v)) if sg else (lambda v: z3.ZeroExt(W - bits, v))
+                for k in range(17):
+                    xv = fpv32(k / 16.0)
+                    rk = z3.substitute(r, (x, xv)); pk = z3.substitute(S.panic, (x, xv))
+                    N = ext(a) * z3.BitVecVal(16 - k, W) + ext(b) * z3.BitVecVal(k, W)
+                    diff = ext(rk) * z3.BitVecVal(16, W) - N
+                    absd = z3.If(diff < 0, -diff, diff)
+                    o = check.add(Obligation(f'C14.{ty}.nearest[x={k}/16]', pre + [z3.Or(pk, z3.Not(absd <= z3.BitVecVal(9, W)))], [a, b], timeout=to,
+                                             words=f'x = {k}/16, ALL {ty} a,b: lerp is the real interpolation a + x(b-a) rounded to nearest (|error| <= 1/2 + 1/16), no panic'))
+                    o.S = S; o.xconst = k / 16.0
+                    if k < 16:
+                        xv2 = fpv32((k + 1) / 16.0)
+                        r2 = z3.substitute(r, (x, xv2)); p2 = z3.substitute(S.panic, (x, xv2))
+                        o = check.add(Obligation(f'C14.{ty}.monotone[x={k}/16,{k + 1}/16]', pre + [le(a, b), z3.Or(pk, p2, z3.Not(le(rk, r2)))], [a, b], timeout=to,
+                                                 words=f'a <= b: lerp(a,b,{k}/16) <= lerp(a,b,{k + 1}/16), ALL {ty} a,b'))
+                        o.S = S; o.xpair = (k / 16.0, (k + 1) / 16.0)
             if bits == 8:
                 g = xgrid(20) if quick else []
                 gw = ' (quick: low 20 mantissa bits of x zero)' if quick else ''
@@ -147,13 +199,37 @@ def to_native(ty, v):
     return str(signed_val(n, bits) if is_signed(ty) else n)
 
 
+def confirm_monotone(check, ob):
+    S = ob.S; ty = S.ty; mv = ob.result.model
+    def val(name, d=0):
+        v = mv.get(name); return v[1] if isinstance(v, tuple) else (v or d)
+    xs = list(ob.xpair)
+    cases = [{'kind': 'lerp', 'ty': ty, 'a': to_native(ty, mv.get(str(S.a))), 'b': to_native(ty, mv.get(str(S.b))), 'x': '%08x' % f32bits(x)} for x in xs]
+    n1, n2 = run_replay(cases, 'dev')
+    if n1.get('panic') or n2.get('panic'):
+        check.report_violation(ob.name, None, f'lerp::<{ty}>({cases[0]["a"]}, {cases[0]["b"]}, x in {xs}) panics', cases[0]); return
+    if ty == 'f32':
+        import numpy as np
+        r1, r2 = bits2f32(int(n1['r'])), bits2f32(int(n2['r']))
+        bad = r1 > float(np.nextafter(np.float32(r2), np.float32(np.inf)))
+    else:
+        r1, r2 = int(n1['r']), int(n2['r']); bad = r1 > r2
+    if bad:
+        check.report_violation(ob.name, None, f'lerp::<{ty}>(a={n1["a_show"]}, b={n1["b_show"]}, x) is not monotone: x={xs[0]!r} -> {n1["r_show"]}, x={xs[1]!r} -> {n2["r_show"]}', cases[0])
+    else:
+        check.inconclusive.append(f'{ob.name}: model did not reproduce natively: {cases} -> {n1} {n2}')
+
+
 def confirm(check, ob):
+    if ob.name.split('.')[-1].startswith('monotone'):
+        return confirm_monotone(check, ob)
     S = ob.S; ty = S.ty; mv = ob.result.model
     case = {'kind': 'lerp', 'ty': ty, 'a': to_native(ty, mv.get(str(S.a))), 'b': to_native(ty, mv.get(str(S.b))),
-            'x': '%08x' % (mv.get(str(S.x), ('fp', 0))[1])}
+            'x': '%08x' % (f32bits(ob.xconst) if hasattr(ob, 'xconst') else mv.get(str(S.x), ('fp', 0))[1])}
     nat = run_replay([case], 'dev')[0]; nat_r = run_replay([case], 'release')[0]
     x = bits2f32(int(case['x'], 16))
     name = ob.name.split('.')[-1]
+    if name.startswith('nearest['): name = 'nearest-on-grid'
     viol = None
     if nat.get('panic') or nat_r.get('panic'):
         viol = f'lerp::<{ty}>({case["a"]}, {case["b"]}, {x!r}) panics: {nat.get("msg") or nat_r.get("msg")}'
@@ -168,6 +244,22 @@ def confirm(check, ob):
             viol = f'lerp::<{ty}>(a={nat["a_show"]}, b={nat["b_show"]}, x={x!r}) = {nat["r_show"]} outside [min,max]'
         elif name == 'identity-1ulp' and abs(int(r) - int(nat['a'])) > 1:
             viol = f'lerp::<f32>(a,a,x) = {nat["r_show"]} more than one ulp from a={nat["a_show"]} (x={x!r})'
+        elif name == 'nearest-on-grid':
+            mb = 4; ai, bi, ri = int(nat['a']), int(nat['b']), int(r)
+            k = round(x * (1 << mb)); N = ai * ((1 << mb) - k) + bi * k
+            if abs(ri * (1 << mb) - N) > (1 << (mb - 1)) + 1:
+                viol = f'lerp::<{ty}>(a={ai}, b={bi}, x={x!r}) = {ri}, but the real interpolation is {N / (1 << mb)!r}: not rounded to nearest'
+        elif name.startswith('between-1ulp') and not nat.get('in_range'):
+            af, bf, rf = bits2f32(int(nat['a'])), bits2f32(int(nat['b'])), bits2f32(int(r))
+            import numpy as np
+            lo = float(np.nextafter(np.float32(min(af, bf)), np.float32(-np.inf))); hi = float(np.nextafter(np.float32(max(af, bf)), np.float32(np.inf)))
+            if not (lo <= rf <= hi): viol = f'lerp::<f32>(a={af!r}, b={bf!r}, x={x!r}) = {rf!r} lies outside [a,b] by more than one ulp'
+        elif name == 'f32-precision-on-grid':
+            import struct as _s
+            af = _s.unpack('>d', bytes.fromhex(case['a']))[0]; bf = _s.unpack('>d', bytes.fromhex(case['b']))[0]
+            rf = _s.unpack('>d', _s.pack('>Q', int(r)))[0] if str(r).lstrip('-').isdigit() else float('nan')
+            exact = af * (1 - x) + bf * x
+            if not abs(rf - exact) <= 2.0 ** -22 * max(abs(af), abs(bf)): viol = f'lerp::<f64>(a={af!r}, b={bf!r}, x={x!r}) = {rf!r}; the real interpolation is {exact!r}'
         elif nat != nat_r:
             viol = f'dev/release differ: {nat} vs {nat_r}'
     if viol is None:
